@@ -316,6 +316,247 @@ fn plain_relay(out: &mut Out, rng: &mut Rng, thorough: bool, buffer: usize) {
     w.stop();
 }
 
+// ------------------------------------------ one-way streams vs idle timers --
+
+#[derive(Clone, Copy, PartialEq, Debug)]
+enum Mode {
+    Plain,
+    Send,
+    Ws,
+}
+
+struct StreamCase {
+    mode: Mode,
+    /// true: the backend streams to the client; false: the client streams to the backend
+    b2c: bool,
+    /// a 1-byte write every 400 ms in the other direction
+    trickle: bool,
+}
+
+struct StreamResult {
+    ops: Vec<String>,
+    fails: Vec<(String, String)>,
+    info: String,
+}
+
+const WS_REQ: &[u8] = b"GET /ws HTTP/1.1\r\nHost: localhost\r\nConnection: Upgrade\r\nUpgrade: websocket\r\nSec-WebSocket-Key: dGhlIHNhbXBsZSBub25jZQ==\r\nSec-WebSocket-Version: 13\r\n\r\n";
+const WS_RESP: &[u8] = b"HTTP/1.1 101 Switching Protocols\r\nConnection: Upgrade\r\nUpgrade: websocket\r\nSec-WebSocket-Accept: s3pPLMBiTxaQ9kYGzzhZRbK+xOo=\r\n\r\n";
+
+/// one paced one-way stream, longer than the idle timeouts, on an established
+/// client/backend pair. Judged as usual: byte-exactness, EOF only after drain.
+fn stream_traffic(case: &StreamCase, mut c: RawConn, mut b: RawConn, data: Vec<u8>, chunks: usize, gap: Duration, tmo: Duration) -> StreamResult {
+    let ops = vec![format!(
+        "mode={:?} one-way stream {} of {} bytes in {} chunks every {:?} (longer than the {:?} idle timeouts), trickle={}",
+        case.mode,
+        if case.b2c { "backend->client" } else { "client->backend" },
+        data.len(),
+        chunks,
+        gap,
+        tmo,
+        case.trickle
+    )];
+    let mut fails = vec![];
+    let long = tmo * 4 + gap * chunks as u32 + Duration::from_secs(3);
+    let t0 = Instant::now();
+    // what each side had already received before the stream starts (websocket: the 101 head /
+    // the request head; send mode: the backend first gets the 28-byte PROXY header)
+    let c_skip = c.received.len();
+    let b_skip = if case.mode == Mode::Send { 28 } else { b.received.len() };
+    let piece = data.len() / chunks;
+    let pieces: Vec<Vec<u8>> = data.chunks(piece.max(1)).map(|x| x.to_vec()).collect();
+    let (sender, receiver, recv_skip) = if case.b2c { (b, c, c_skip) } else { (c, b, b_skip) };
+    // trickle in the other direction through a clone of the receiver's socket
+    let stop = std::sync::Arc::new(std::sync::atomic::AtomicBool::new(false));
+    let trickle = if case.trickle {
+        let mut w = RawConn::from_stream(receiver.stream.try_clone().expect("clone"));
+        let stop = stop.clone();
+        Some(std::thread::spawn(move || {
+            let mut n = 0usize;
+            while !stop.load(std::sync::atomic::Ordering::Relaxed) {
+                std::thread::sleep(Duration::from_millis(400));
+                if w.write_all(b"t", Duration::from_millis(500)).is_err() {
+                    break;
+                }
+                n += 1;
+            }
+            n
+        }))
+    } else {
+        None
+    };
+    let b2c = case.b2c;
+    let total = data.len();
+    let st = std::thread::spawn(move || {
+        let mut sender = sender;
+        let r = sender.write_chunks(&pieces.iter().map(|p| p.as_slice()).collect::<Vec<_>>(), gap, long);
+        // let the last bytes travel before the end-of-stream (the FIN race is finding F14, not this family)
+        std::thread::sleep(Duration::from_millis(300));
+        if b2c {
+            sender.shutdown_write();
+            let _ = sender.read_until_closed_or(Duration::from_secs(2));
+        }
+        (sender, r.is_ok())
+    });
+    let mut receiver = receiver;
+    let end = if b2c { receiver.read_until_closed_or(long) } else { receiver.read_until_len(recv_skip + total, long) };
+    let t_end = t0.elapsed();
+    stop.store(true, std::sync::atomic::Ordering::Relaxed);
+    let (sender, wrote_all) = st.join().expect("sender");
+    let trickled = trickle.map(|t| t.join().unwrap_or(0)).unwrap_or(0);
+    let got = &receiver.received[recv_skip.min(receiver.received.len())..];
+    let exact = got == &data[..];
+    if !exact {
+        let class = if got.len() < total && data.starts_with(got) && t_end >= tmo.mul_f32(0.9) && t_end < gap * chunks as u32 + Duration::from_millis(200) {
+            // a prefix arrived, then the stream was cut around an idle-timeout boundary while the sender was still streaming
+            "tcp-stream-cut-by-idle-timer"
+        } else if b2c {
+            "tcp-bytes-differ-backend-to-client"
+        } else {
+            "tcp-bytes-differ-client-to-backend"
+        };
+        fails.push((class.into(), format!("receiver got {} of {} bytes (prefix: {}), its read ended {:?} at {:.3} s; the sender {} all its chunks; idle timeouts {:?}", got.len(), total, data.starts_with(got), end, t_end.as_secs_f64(), if wrote_all { "wrote" } else { "could not write" }, tmo)));
+    } else if b2c && end != ReadEnd::Closed {
+        fails.push(("tcp-backend-eof-not-propagated".into(), format!("client read ended {end:?} after the backend closed")));
+    }
+    // the trickle bytes must have crossed too (prefix of what was written)
+    let back = &sender.received;
+    if case.trickle && back.iter().any(|x| *x != b't') {
+        fails.push(("tcp-bytes-differ-trickle".into(), format!("sender side received {:?}", hex(&back[..back.len().min(32)]))));
+    }
+    StreamResult { ops, fails, info: format!("{} bytes in {:.2} s, trickle bytes sent {trickled}, received {}", got.len(), t_end.as_secs_f64(), back.len()) }
+}
+
+fn idle_timer_family(out: &mut Out, rng: &mut Rng, thorough: bool) {
+    let tmo_s = 2u32;
+    let tmo = Duration::from_secs(tmo_s as u64);
+    let Some(mut w) = setup(out, "worker", || Worker::start(WorkerOpts { front_timeout: Some(tmo_s), back_timeout: Some(tmo_s), ..Default::default() })) else { return };
+    let mut cases = vec![
+        StreamCase { mode: Mode::Plain, b2c: true, trickle: false },
+        StreamCase { mode: Mode::Plain, b2c: false, trickle: false },
+        StreamCase { mode: Mode::Plain, b2c: true, trickle: true },
+        StreamCase { mode: Mode::Send, b2c: true, trickle: false },
+        StreamCase { mode: Mode::Ws, b2c: true, trickle: false },
+    ];
+    if thorough {
+        cases.push(StreamCase { mode: Mode::Plain, b2c: false, trickle: true });
+        cases.push(StreamCase { mode: Mode::Send, b2c: false, trickle: false });
+        cases.push(StreamCase { mode: Mode::Ws, b2c: false, trickle: false });
+        cases.push(StreamCase { mode: Mode::Ws, b2c: true, trickle: true });
+    }
+    // every case on its own listener / cluster / backend of the same worker, all streaming at once
+    let chunks = 34usize;
+    let gap = Duration::from_millis(100);
+    let mut handles = vec![];
+    for (i, case) in cases.into_iter().enumerate() {
+        out.case("idle-timer:stream");
+        let cid = format!("s{i}");
+        let Some(be) = setup(out, "backend", MockBackend::listen) else { continue };
+        let front = match case.mode {
+            Mode::Ws => {
+                let Some(f) = setup(out, "listener", || w.add_http_listener()) else { continue };
+                if setup(out, "route", || w.add_http_route(f, "localhost", "/", &cid, be.addr, false)).is_none() {
+                    continue;
+                }
+                f
+            }
+            m => {
+                let Some(f) = setup(out, "listener", || w.add_tcp_listener()) else { continue };
+                let pp = if m == Mode::Send { Some(ProxyProtocolConfig::SendHeader) } else { None };
+                if setup(out, "route", || w.add_tcp_route(f, &cid, be.addr, pp)).is_none() {
+                    continue;
+                }
+                f
+            }
+        };
+        let ops0 = vec![format!("idle-timer family case {i}")];
+        let Some(c) = conn(out, front, &ops0) else { continue };
+        let data = payload(rng, chunks * 1024);
+        if case.mode == Mode::Ws {
+            // backend connection only exists after the request head: do the accept inside the thread
+            let h = std::thread::spawn(move || {
+                let mut c = c;
+                let _ = c.write_all(WS_REQ, T);
+                let b = match be.accept(T) {
+                    Ok(b) => b,
+                    Err(e) => {
+                        return StreamResult { ops: vec![format!("mode=Ws case {i}")], fails: vec![("tcp-no-backend-connection".into(), format!("{e}"))], info: String::new() };
+                    }
+                };
+                let mut case = case;
+                let mut b = b;
+                if b.read_until(b"\r\n\r\n", T) != ReadEnd::Done {
+                    return StreamResult { ops: vec![format!("mode=Ws case {i}")], fails: vec![("ws-upgrade-fails".into(), "request head not relayed".into())], info: String::new() };
+                }
+                let _ = b.write_all(WS_RESP, T);
+                if c.read_until(b"\r\n\r\n", T) != ReadEnd::Done || !c.received.starts_with(b"HTTP/1.1 101") {
+                    return StreamResult { ops: vec![format!("mode=Ws case {i}")], fails: vec![("ws-upgrade-fails".into(), format!("client got {:?}", String::from_utf8_lossy(&c.received)))], info: String::new() };
+                }
+                case.mode = Mode::Plain; // upgraded: from here on it is a plain tunnel
+                let mut r = stream_traffic(&case, c, b, data, chunks, gap, tmo);
+                r.ops[0] = r.ops[0].replace("mode=Plain", "mode=Ws(upgraded)");
+                r
+            });
+            handles.push(h);
+        } else {
+            let Ok(b) = be.accept(T) else {
+                out.fail("tcp-no-backend-connection", "idle-timer family".into(), ops0);
+                continue;
+            };
+            handles.push(std::thread::spawn(move || {
+                let _keep = be;
+                stream_traffic(&case, c, b, data, chunks, gap, tmo)
+            }));
+        }
+    }
+    // the mirrored legitimate behaviour: a truly idle session IS closed by the timer (never flagged)
+    let idle = {
+        let be = setup(out, "backend", MockBackend::listen);
+        let f = setup(out, "listener", || w.add_tcp_listener());
+        match (be, f) {
+            (Some(be), Some(f)) if setup(out, "route", || w.add_tcp_route(f, "idle", be.addr, None)).is_some() => conn(out, f, &["idle session".to_string()]).map(|c| (c, be)),
+            _ => None,
+        }
+    };
+    let idle_h = idle.map(|(mut c, be)| {
+        std::thread::spawn(move || {
+            let _b = be.accept(T);
+            let t0 = Instant::now();
+            let end = c.read_until_closed_or(tmo * 3 + Duration::from_secs(2));
+            (end, t0.elapsed())
+        })
+    });
+    for h in handles {
+        match h.join() {
+            Ok(r) => {
+                out.nontrivial += 1;
+                for (class, detail) in r.fails {
+                    out.fail(&class, detail, r.ops.clone());
+                }
+                if out.samples.len() < 6 {
+                    out.samples.push(json!({"case": out.case, "ops": r.ops, "impl_out": [r.info]}));
+                }
+            }
+            Err(_) => out.fail("harness-thread-panicked", "idle-timer family".into(), vec![]),
+        }
+    }
+    if let Some(h) = idle_h {
+        out.case("idle-timer:idle");
+        if let Ok((end, t)) = h.join() {
+            let tag = if matches!(end, ReadEnd::Closed | ReadEnd::Reset) {
+                if t < tmo.mul_f32(0.7) {
+                    out.fail("tcp-idle-session-closed-early", format!("an idle session was closed after {:.2} s, idle timeout {:?}", t.as_secs_f64(), tmo), vec!["idle session".into()]);
+                }
+                "idle-session-closed-by-timer"
+            } else {
+                "idle-session-still-open"
+            };
+            *out.dist.entry(tag.to_string()).or_insert(0) += 1;
+        }
+    }
+    watchdog(&mut w, out, "the idle-timer family", &["idle-timer family".to_string()]);
+    w.stop();
+}
+
 // ------------------------------------------------------------------ send ---
 
 fn send_mode(out: &mut Out, rng: &mut Rng, thorough: bool) {
@@ -560,6 +801,7 @@ fn main() {
         // black-box cases are not replayed from a file: the whole scenario set is deterministic in the seed
         eprintln!("tcprelay: replay = re-run of the scenario set with the given seed");
     }
+    idle_timer_family(&mut out, &mut rng, thorough);
     plain_relay(&mut out, &mut rng, thorough, 16384);
     if thorough {
         plain_relay(&mut out, &mut rng, thorough, 4096);
@@ -579,7 +821,7 @@ fn main() {
         "seed": args.seed,
         "evaluations": out.evaluations,
         "distinct_nontrivial": out.nontrivial,
-        "rule": "black-box: real worker thread per proxy-protocol mode; plain relay payload pairs 0..4x buffer_size in 4 chunking styles with/without pauses + backend half-close + back-pressure (paced reader, 4 KiB rcvbuf); client FIN with/without pause; send mode x payload sizes; HTTP expect_proxy: 28-byte header split at every byte position, one segment, byte by byte, LOCAL header, malformed/oversized; TCP expect and relay witnesses; watchdog after every case. Non-trivial: a case in which at least one connection reached the worker",
+        "rule": "black-box: real worker thread per proxy-protocol mode; plain relay payload pairs 0..4x buffer_size in 4 chunking styles with/without pauses + backend half-close + back-pressure (paced reader, 4 KiB rcvbuf); client FIN with/without pause; send mode x payload sizes; HTTP expect_proxy: 28-byte header split at every byte position, one segment, byte by byte, LOCAL header, malformed/oversized; TCP expect and relay witnesses; one-way streams (backend->client, client->backend, with/without a trickle the other way; plain, send-proxy, upgraded websocket) paced over a longer time than the 2 s idle timeouts, all at once on one worker, plus a truly idle session that must be closed by the timer; watchdog after every case. Non-trivial: a case in which at least one connection reached the worker",
         "samples": out.samples,
         "traces_validated_against_impl": 0,
         "disagreements_checked": out.evaluations,
